@@ -256,6 +256,8 @@ def _dist_spec(cfg, i, path):
     return unordered == ('DISTINCT' if want else 'ALL') and ordered == unordered
 
 
+from contracts import c24_chains as CH
+
 CONTRACTS = [
     Contract('combine_limit_and_offset', 'pony.orm.sqltranslation:combine_limit_and_offset', _clo_configs, _clo_case,
              [('windows_compose', _clo_windows_compose), ('result_nonnegative', _clo_result_shape)],
@@ -276,4 +278,8 @@ CONTRACTS = [
     Contract('construct_sql_ast.DISTINCT', 'pony.orm.sqltranslation:SQLTranslator.construct_sql_ast', _dist_configs, _dist_case,
              [('select_mode_independent_of_ordering', _dist_spec)],
              doc='ordering a query must only permute its result: the DISTINCT/ALL decision must not read translator.order'),
+    Contract('method_chains_vs_list', ['pony.orm.core:Query.__getitem__', 'pony.orm.core:Query.limit', 'pony.orm.core:Query.page', 'pony.orm.core:Query.first', 'pony.orm.core:Query.get',
+                                       'pony.orm.core:Query.exists', 'pony.orm.core:Query.count', 'pony.orm.core:Query._aggregate', 'pony.orm.core:Query.random', 'pony.orm.core:Query.delete',
+                                       'pony.orm.core:Query.filter', 'pony.orm.core:Query.order_by', 'pony.orm.core:QueryResult'],
+             CH.configs, CH.case, [('chain_equals_the_python_operation_on_the_full_result', CH.spec)], level='bounded', bound=CH.BOUND),
 ]
